@@ -73,6 +73,21 @@ def check(chk):
     ok = bool(withs) and any(call_attr(c) == "dump" for c in ast.walk(withs[0]) if isinstance(c, ast.Call))
     chk.ob("PAIR-17", "the YAML writer closes the file (with-block) before returning", ok, ys.where(), construct=ys.ident, text="with open")
 
+    # writer and reader name the same text encoding explicitly: the platform default differs between machines (cp1252, C locale),
+    # a file written with it is rejected by the utf8 reader on the next boot and every value in it is gone
+    yl = repo.func(YI, "YamlInterface.load")
+    chk.analysed(yl)
+    encs = {}
+    for fn_ in (ys, yl):
+        for c in fn_.calls():
+            if isinstance(c.func, ast.Name) and c.func.id == "open":
+                e_ = [k.value for k in c.keywords if k.arg == "encoding"]
+                encs.setdefault(fn_.name, []).append(e_[0].value if e_ and isinstance(e_[0], ast.Constant) else None)
+    flat = [e for v in encs.values() for e in v]
+    ok = len(encs) == 2 and None not in flat and len({str(e).lower().replace("-", "") for e in flat}) == 1
+    chk.ob("TABLE-6", "the YAML writer and the YAML reader open the file with the same explicitly named text encoding", ok, ys.where(), detail=str(encs),
+           construct=ys.ident, text="yaml encoding agreement")
+
     # the dumper is created per write: a module-level ruamel YAML instance keeps its emitter bound to the closed stream
     # after one failed dump and every later save in the process fails (F17)
     dumps = [c for c in ys.calls() if call_attr(c) == "dump"]
@@ -182,6 +197,23 @@ def check(chk):
     sd = repo.func("mpf/core/machine.py", "MachineController.shutdown")
     ok = any(call_attr(c) == "set" and src(c.func.value) == "self.thread_stopper" for c in sd.calls())
     chk.ob("PAIR-18", "shutdown tells the writer threads to stop", ok, sd.where(), construct=sd.ident, text="thread_stopper set")
+    # ... and only there: handlers of the `shutdown` event still store values (last chance to persist); a writer told to stop before they
+    # ran does its final flush too early and exits, and what the handlers stored stays in memory
+    sets = [u for u in idx.uses("set") if u.call is not None and (u.recv_text or "").endswith("thread_stopper") and "/tests/" not in u.relpath]
+    for u in sets:
+        chk.ob("PAIR-18", "the writer threads are told to stop only in MachineController.shutdown", u.func is not None and u.func.ident == sd.ident,
+               "%s:%d" % (u.relpath, u.node.lineno), construct=u.func.ident if u.func is not None else u.relpath, text="thread_stopper.set() outside shutdown")
+    chk.ob("PAIR-18", "stop request sites examined", len(sets) >= 1, sd.where(), detail=str(len(sets)), nontrivial=False)
+    ds = repo.func("mpf/core/machine.py", "MachineController._do_stop")
+    chk.analysed(ds)
+    dcfg = ds.cfg()
+    sh = [n for n, c in dcfg.calls_named("shutdown") if src(c.func.value) == "self"]
+    post = [n for n, c in dcfg.calls_named("post") if c.args and isinstance(c.args[0], ast.Constant) and c.args[0].value == "shutdown"]
+    peq = [n for n, c in dcfg.calls_named("process_event_queue")]
+    chk.need(sh and post and peq, "PAIR-18", "_do_stop posts `shutdown`, drains the event queue and shuts down", ds)
+    ok = all(dcfg.dominates(post[0].id, peq[0].id) and dcfg.dominates(peq[0].id, n.id) for n in sh)
+    chk.ob("PAIR-18", "the `shutdown` event is posted and its handlers have run (queue drained) before the machine shuts down and stops the writers", ok,
+           ds.where(sh[0].ast), construct=ds.ident, text="shutdown after shutdown handlers")
 
     # ------------------------------------------------------------ TABLE-6
     w_ = repo.func(MV, "MachineVariables._write_machine_vars_to_disk")
@@ -297,6 +329,9 @@ def battery():
         M("writer skips dirty rounds", DM, "            if not self._dirty.wait(1):\n                continue", "            if self._dirty.wait(1):\n                continue", "FLOW-6"),
         M("unexpired variables are dropped on load when they expire at all", MV, "            if ('expire' in settings and settings['expire'] and\n                    settings['expire'] < current_time):", "            if ('expire' in settings and settings['expire']):", "TABLE-6"),
         M("expiry time updated after the record was written", MV, "        if self.machine_vars[name][\"expire_secs\"]:\n            self.machine_vars[name][\"timeout\"] = \\\n                self.machine.clock.get_datetime().timestamp() + self.machine_vars[name][\"expire_secs\"]\n\n        # set value\n        self.machine_vars[name]['value'] = value\n\n        if change:\n            self._write_machine_var_to_disk(name)\n", "        # set value\n        self.machine_vars[name]['value'] = value\n\n        if change:\n            self._write_machine_var_to_disk(name)\n        if self.machine_vars[name][\"expire_secs\"]:\n            self.machine_vars[name][\"timeout\"] = \\\n                self.machine.clock.get_datetime().timestamp() + self.machine_vars[name][\"expire_secs\"]\n", "FLOW-6"),
+        M("writer uses the platform default encoding", YI, "with open(filename, 'w', encoding='utf8') as output_file:", "with open(filename, 'w', newline='\\n') as output_file:", "TABLE-6"),
+        M("writers told to stop before the shutdown handlers ran", "mpf/core/machine.py", "        self.is_shutting_down = True\n        self.log.info(\"Shutting down...\")", "        self.is_shutting_down = True\n        self.thread_stopper.set()\n        self.log.info(\"Shutting down...\")", "PAIR-18"),
+        M("machine shut down before the shutdown handlers ran", "mpf/core/machine.py", "        self.events.process_event_queue()\n        self.shutdown()", "        self.shutdown()\n        self.events.process_event_queue()", "PAIR-18"),
     ]
 
 
